@@ -1,13 +1,680 @@
-"""R1CS gadget rules shared by C01/C02/C03/C07/C13/C14/C15 (cfg R)."""
+"""R1CS gadget rules (cfg R) shared by C01/C02/C03/C04/C07/C13/C14/C15."""
+import re
+from . import terms as Tm, consts as K, poly as P
+from .terms import mk, lit, field, TRUE, FALSE, variant, is_variant, payload
+from . import curve as C
+from .curve import Cfg
+from .common import norm_path
+from .summaries import felem
+from . import groupops as G
+from spec import decaf_spec as SP
+
+ISQRT = "<ark_r1cs_std::fields::fp::FpVar<fields::fq::u64::wrapper::Fq> as ark_curve::r1cs::fqvar_ext::FqVarExtension>::isqrt"
+INNER = "ark_curve::r1cs::inner::ElementVar"
+OUTER = "ark_curve::r1cs::element::ElementVar"
 
 
-def check_gadget_codec(rep, factsR, pid):
-    return
+def is_alloc(t, mode=None):
+    return isinstance(t, Tm.T) and t.op == "allocated" and (mode is None or (t.args[0].op == "variant" and t.args[0].args[0] == mode))
+
+
+def eval_bool(t, asg):
+    """evaluate a boolean term under an assignment of atoms (terms) to Python bools; None if undetermined"""
+    if t in asg:
+        return asg[t]
+    if t.op == "bool":
+        return t.args[0]
+    if t.op == "not":
+        v = eval_bool(t.args[0], asg)
+        return None if v is None else (not v)
+    if t.op in ("and", "or"):
+        a, b = eval_bool(t.args[0], asg), eval_bool(t.args[1], asg)
+        if t.op == "and":
+            if a is False or b is False:
+                return False
+            return None if a is None or b is None else True
+        if a is True or b is True:
+            return True
+        return None if a is None or b is None else False
+    if t.op == "ne":
+        e = Tm.mk("eq", *t.args)
+        v = eval_bool(e, asg)
+        return None if v is None else (not v)
+    if t.op == "ite":
+        c = eval_bool(t.args[0], asg)
+        if c is None:
+            return None
+        return eval_bool(t.args[1] if c else t.args[2], asg)
+    return None
+
+
+# =====================================================================================================
+# C14: the hint block of FqVarExtension::isqrt
+# =====================================================================================================
+
+def isqrt_facts(cfg, rep):
+    if ISQRT not in cfg.prog.bodies:
+        rep.fail_closed("FqVarExtension::isqrt not found in cfg R")
+        return None
+    out = cfg.run(ISQRT)
+    S_ = mk("param", "self")
+    allocs = [(args, site) for pc, kind, args, site in out.effects if kind == "alloc"]
+    cee = [(pc, args, site) for pc, kind, args, site in out.effects if kind == "cond_enforce_equal"]
+    ee = [(pc, args, site) for pc, kind, args, site in out.effects if kind == "enforce_equal"]
+    return dict(out=out, allocs=allocs, cee=cee, ee=ee, self=S_)
+
+
+def isqrt_guard_table(rep, cfg, pid):
+    fx = isqrt_facts(cfg, rep)
+    if fx is None:
+        return
+    out, S_ = fx["out"], fx["self"]
+    N = P.Norm(K.Q)
+    where = cfg.where(ISQRT)
+    # --- the two witnesses
+    wit = [a for a, site in fx["allocs"] if a[0].op == "variant" and a[0].args[0] == "Witness"]
+    other = [a for a, site in fx["allocs"] if not (a[0].op == "variant" and a[0].args[0] == "Witness")]
+    v = out.value
+    ret_ok = False
+    ws = y = None
+    if v.op == "variant" and v.args[0] == "Ok" and v.args[1].op == "tuple" and len(v.args[1].args) == 2:
+        ws, y = v.args[1].args
+        ret_ok = is_alloc(ws, "Witness") and is_alloc(y, "Witness") and ws.args[1].args[0] == "bool" and y.args[1].args[0] == "fq"
+    rep.ob("GUARD/R/isqrt/witnesses", len(wit) == 2 and not other and ret_ok,
+           "isqrt must allocate exactly two witnesses (the squareness flag and y), nothing else, and return those two variables; allocations: %d witness, %d other; returns %s" % (
+               len(wit), len(other), Tm.show(v, maxdepth=3)), where=where)
+    if not ret_ok:
+        return
+    dz = Tm.eq(S_, felem("fq", 0))
+    y2 = mk("mul", y, y)
+    zc = cfg.prog.consts.get("ark_curve::constants::ZETA")
+    zeta = K.felt(zc["value"]["val"], "fq")[1]
+    inv_s = mk("inv", S_)
+    want_rhs = {(True, False): inv_s, (False, False): mk("mul", felem("fq", zeta), inv_s), (False, True): felem("fq", 0)}
+    names = {(True, False): "y^2 = 1/den", (False, False): "y^2 = zeta/den", (False, True): "y^2 = 0", (True, True): "unsatisfiable"}
+    for wsv in (True, False):
+        for dzv in (False, True):
+            asg = {ws: wsv, dz: dzv}
+            active = []
+            undetermined = []
+            for pc, args, site in fx["cee"]:
+                lhs, rhs, cond = args
+                c = eval_bool(cond, asg)
+                if c is None:
+                    undetermined.append(Tm.show(cond, maxdepth=4))
+                elif c:
+                    r2 = Tm.subst(rhs, {dz: TRUE if dzv else FALSE})
+                    l2 = Tm.subst(lhs, {dz: TRUE if dzv else FALSE})
+                    active.append((l2, r2))
+            final_ok = True
+            for pc, args, site in fx["ee"]:
+                a_, b_ = args
+                va = eval_bool(a_, asg)
+                vb = eval_bool(b_, asg)
+                if va is None or vb is None:
+                    undetermined.append(Tm.show(a_, maxdepth=4))
+                elif va != vb:
+                    final_ok = False
+            key = "GUARD/R/isqrt/row(ws=%d,dz=%d)" % (wsv, dzv)
+            if undetermined:
+                rep.ob(key, False, "guard not a function of (was_square flag, den == 0): %s" % undetermined[:2], where=where)
+                continue
+            if (wsv, dzv) == (True, True):
+                # must be unsatisfiable: either the final case check fails, or no (y) can satisfy the active equations
+                satisfiable = final_ok     # an active `y^2 = c` always has a solution for some y when c is a square or 0; 1 is a square
+                what = "; ".join("%s = %s" % (Tm.show(l, maxdepth=3), Tm.show(r, maxdepth=4)) for l, r in active)
+                rep.ob(key, not satisfiable,
+                       "prover claims (square, den = 0): the constraint block must be unsatisfiable, but the case check passes and the only active equation is [%s] - "
+                       "(true, y = +-1) is accepted for den = 0, so decode accepts s = q-1 in-circuit while the native decoder rejects it" % what, where=where,
+                       sample={"obligation": key, "active_equations": what, "final_case_check": final_ok})
+                continue
+            want = want_rhs[(wsv, dzv)]
+            good = final_ok and len(active) == 1 and N.pkey(N.poly(active[0][0])) == N.pkey(N.poly(y2)) and N.pkey(N.poly(active[0][1])) == N.pkey(N.poly(want))
+            rep.ob(key, good, "row (was_square=%s, den=0:%s) must enforce exactly [%s] and pass the case check; active: %s; case check passes: %s" % (
+                wsv, dzv, names[(wsv, dzv)], ["%s = %s" % (Tm.show(l, maxdepth=3), Tm.show(r, maxdepth=4)) for l, r in active], final_ok), where=where,
+                sample={"obligation": key, "required": names[(wsv, dzv)], "holds": good})
+    # den_inv = INV(ITE(dz, 1, den)) and its existence is enforced
+    invs = [args[0] for pc, kind, args, site in out.effects if kind == "enforce_invertible"]
+    rep.ob("GUARD/R/isqrt/den_inv", invs == [Tm.ite(dz, felem("fq", 1), S_)], "den_inv must be the inverse of ITE(den == 0, 1, den); inverses taken: %s" % [Tm.show(i, maxdepth=4) for i in invs], where=where, nontrivial=False)
+    for u in out.unmodelled:
+        rep.unmodelled.append("isqrt: " + u)
+
+
+def isqrt_hint(rep, cfg):
+    """C13: the honest hint is the native sqrt_ratio_zeta(1, value(self))"""
+    fx = isqrt_facts(cfg, rep)
+    if fx is None:
+        return
+    S_ = fx["self"]
+    val = mk("value_of", S_)
+    vals = [a[2] for a, site in fx["allocs"]]
+    want = [mk("isqrt_sq", felem("fq", 1), val), mk("isqrt_v", felem("fq", 1), val)]
+    rep.ob("HINT/R/isqrt", vals == want,
+           "the witnesses must be the native sqrt_ratio_zeta(1, value(self)) (flag, root), so that the gadget's output value equals the native result for every input incl. den = 0; hints: %s" % [Tm.show(v, maxdepth=5) for v in vals],
+           where=cfg.where(ISQRT), sample={"obligation": "HINT/R/isqrt", "hints": [Tm.show(v, maxdepth=4) for v in vals]})
+    calls = [a[0].args[0] for pc, kind, a, site in fx["out"].effects if kind == "isqrt_call"]
+    rep.ob("FUNNEL/R/isqrt-hint-routine", calls == ["sqrt_ratio_zeta"], "the hint must come from Fq::sqrt_ratio_zeta; calls: %s" % calls, where=cfg.where(ISQRT), nontrivial=False)
+
+
+def isqrt_summary():
+    """local summary of the gadget (justified by the GUARD table + HINT rule): (flag, root) of ISQRT(1, self)"""
+    def summ(ctx):
+        x = ctx.args[0]
+        ctx.effect("isqrt_gadget", x)
+        return variant("Ok", mk("tuple", mk("isqrt_sq", felem("fq", 1), x), mk("isqrt_v", felem("fq", 1), x)))
+    return {ISQRT: summ}
+
+
+# =====================================================================================================
+# C13 / C01 / C02 / C03 / C07: gadget codec and Elligator agree with the native code
+# =====================================================================================================
+
+def ok_payload(v):
+    if v.op == "variant" and v.args[0] == "Ok":
+        return v.args[1]
+    return None
+
+
+def check_gadget_codec(rep, factsR, pid, cfg=None):
+    cfg = cfg or Cfg(factsR)
+    N = P.Norm(K.Q)
+    loc = isqrt_summary()
+    # --- decompress_from_field
+    p = INNER + "::decompress_from_field"
+    if p not in cfg.prog.bodies:
+        rep.fail_closed("inner::ElementVar::decompress_from_field not found")
+        return cfg
+    out = cfg.run(p, local=loc)
+    s = mk("param", "s_var")
+    spec = SP.decode(s)
+    v = ok_payload(out.value)
+    co = None
+    if v is not None:
+        inner = field(v, "inner")
+        if inner.op == "struct" and inner.args[0] == "TEAff":
+            co = (field(inner, "x"), field(inner, "y"))
+    if co is None:
+        rep.ob("TERM/R/decompress:shape", False, "decompress_from_field must return Ok(ElementVar{AffineVar::new(x, y)}); got %s" % Tm.show(out.value, maxdepth=4), where=cfg.where(p))
+    else:
+        for nm, got in zip("xy", co):
+            ok = N.pkey(N.poly(got)) == N.pkey(N.poly(spec[nm]))
+            rep.ob("TERM/R/decompress:%s" % nm.upper(), ok and not out.unmodelled,
+                   "in-circuit decode must compute the same %s as the native / specified decode (Z = 1)\n%s" % (nm, "" if ok else C.explain_poly_mismatch(N, got, spec[nm])), where=cfg.where(p),
+                   sample={"obligation": "TERM/R/decompress:%s" % nm.upper(), "equal": ok})
+    enf = [(args, site) for pc, kind, args, site in out.effects if kind == "enforce_equal"]
+    got_enf = set()
+    for args, site in enf:
+        a_, b_ = args
+        if b_ is TRUE or a_ is TRUE:
+            got_enf.add(N.cond(a_ if b_ is TRUE else b_))
+        else:
+            got_enf.add(("other", Tm.show(mk("tuple", a_, b_), maxdepth=4)))
+    want_enf = {N.cond(Tm.not_(spec["s_negative"])): "is_nonnegative(s) = TRUE", N.cond(spec["was_square"]): "was_square = TRUE"}
+    for k2, nm in want_enf.items():
+        rep.ob("ENFORCE/R/decompress:%s" % nm.split(" ")[0], k2 in got_enf, "in-circuit decode must enforce %s (the native decoder's rejection); enforced: %d constraints" % (nm, len(enf)), where=cfg.where(p),
+               sample={"obligation": "ENFORCE/R/decompress:" + nm, "present": k2 in got_enf})
+    extra = [k2 for k2 in got_enf if k2 not in want_enf]
+    rep.ob("ENFORCE/R/decompress:no-extra", not extra, "completeness: decode must not enforce anything beyond the two native rejections (and isqrt's own block); extra: %s" % [str(e)[:120] for e in extra], where=cfg.where(p), nontrivial=False)
+    # --- compress_to_field
+    p = INNER + "::compress_to_field"
+    out = cfg.run(p, local=loc)
+    S_ = mk("param", "self")
+    X, Y = field(field(S_, "inner"), "x"), field(field(S_, "inner"), "y")
+    want = SP.encode(X, Y, felem("fq", 1), mk("mul", X, Y))
+    v = ok_payload(out.value)
+    ok = v is not None and N.pkey(N.poly(v)) == N.pkey(N.poly(want))
+    rep.ob("TERM/R/compress", ok and not out.unmodelled, "in-circuit encode must equal the specified encoder under Z := 1, T := X*Y\n%s" % ("" if ok or v is None else C.explain_poly_mismatch(N, v, want)),
+           where=cfg.where(p), sample={"obligation": "TERM/R/compress", "equal": ok})
+    enf = [args for pc, kind, args, site in out.effects if kind in ("enforce_equal", "cond_enforce_equal")]
+    rep.ob("ENFORCE/R/compress:none", not enf, "encode must not enforce anything of its own (only isqrt's block); found %d" % len(enf), where=cfg.where(p), nontrivial=False)
+    return cfg
+
+
+def check_gadget_elligator(rep, factsR, pid, cfg=None):
+    cfg = cfg or Cfg(factsR)
+    N = P.Norm(K.Q)
+    loc = isqrt_summary()
+    p = INNER + "::elligator_map"
+    if p not in cfg.prog.bodies:
+        rep.fail_closed("inner::ElementVar::elligator_map not found")
+        return
+    out = cfg.run(p, local=loc)
+    r0 = mk("param", "r_0_var")
+    zc = cfg.prog.consts.get("ark_curve::constants::ZETA")
+    zeta = K.felt(zc["value"]["val"], "fq")[1]
+    spec = SP.elligator(r0, zeta)
+    v = ok_payload(out.value)
+    inner = field(v, "inner") if v is not None else mk("bottom")
+    if not (inner.op == "struct" and inner.args[0] == "TEAff"):
+        rep.ob("TERM/R/elligator:shape", False, "elligator_map must return Ok(ElementVar{AffineVar::new(x, y)}); got %s" % Tm.show(out.value, maxdepth=4), where=cfg.where(p))
+        return
+    mul, sub = (lambda u, w: mk("mul", u, w)), (lambda u, w: mk("sub", u, w))
+    for nm, got, sx in (("x", field(inner, "x"), spec["x"]), ("y", field(inner, "y"), spec["y"])):
+        if got.op == "mul" and got.args[1].op == "inv":
+            num, den = got.args[0], got.args[1].args[0]
+        elif got.op == "mul" and got.args[0].op == "inv":
+            num, den = got.args[1], got.args[0].args[0]
+        else:
+            num, den = got, felem("fq", 1)
+        r = N.poly(sub(mul(num, spec["z"]), mul(sx, den)))
+        rep.ob("TERM/R/elligator:%s" % nm, not r and not out.unmodelled,
+               "affine %s = num/den of the gadget must be the specified map's %s/Z for every r0: num*Z_spec - %s_spec*den must vanish; remainder %s" % (nm, nm.upper(), nm.upper(), N.show(r, 3)),
+               where=cfg.where(p), sample={"obligation": "TERM/R/elligator:" + nm, "remainder_terms": len(r)})
 
 
 def check_gadget_group_ops(rep, cfgR, pid):
-    return
+    cfg = cfgR
+    traits = ("core::ops::Add", "core::ops::Sub", "core::ops::AddAssign", "core::ops::SubAssign")
+    n = 0
+    for path, b in sorted(cfg.prog.bodies.items()):
+        tr = b.get("impl_trait_def")
+        if tr not in traits or "ark_curve::r1cs::" not in path:
+            continue
+        st = b.get("impl_self", "")
+        if not st.endswith("::ElementVar"):
+            continue
+        n += 1
+        out = cfg.run(path, local=lazy_summaries(cfg))
+        names = [p.get("name") for p in b["params"]]
+        l, r = mk("param", names[0]), mk("param", names[1])
+        kind = G.OP_TRAITS[tr]
+        got = G.den(gden(out.outs.get(0, mk("bottom")))) if kind.endswith("assign") else G.den(gden(out.value))
+        if kind in ("add", "add_assign"):
+            wants = [mk("gadd", l, r), mk("gadd", r, l)]
+        else:
+            wants = [mk("gadd", l, mk("gneg", r))]
+        ok = any(got is w for w in wants) and not out.unmodelled
+        rep.ob("FWD/R/%s" % norm_path(path), ok, "%s on ElementVar must denote %s on its own operands (and write back to self for the assigning forms); got %s%s" % (
+            tr.split("::")[-1], Tm.show(wants[0]), Tm.show(got, maxdepth=6), ("; unmodelled: %s" % out.unmodelled[:2]) if out.unmodelled else ""), where=cfg.where(path),
+            sample={"obligation": "FWD/R/%s" % norm_path(path), "got": Tm.show(got, maxdepth=4)})
+    rep.analysed["gadget_operator_impls"] = n
+    rep.floor("gadget_operator_impls", n, 24)
+    # negate / double_in_place / zero / constant
+    for mod in (INNER, OUTER):
+        for name, want in (("negate", lambda s: mk("gneg", s)), ("double_in_place", lambda s: mk("gdbl", s))):
+            ps = [x for x in cfg.prog.bodies if x.endswith("::" + name) and mod.rsplit("::", 1)[0] in x and "CurveVar" in x]
+            for p in ps:
+                out = cfg.run(p, local=lazy_summaries(cfg))
+                S_ = mk("param", "self")
+                if name == "negate":
+                    v = ok_payload(out.value)
+                    got = G.den(gden(v)) if v is not None else mk("bottom")
+                else:
+                    got = G.den(gden(out.outs.get(0, mk("bottom"))))
+                rep.ob("FWD/R/%s" % norm_path(p), got is want(S_), "%s must denote %s; got %s" % (name, Tm.show(want(S_)), Tm.show(got, maxdepth=5)), where=cfg.where(p))
 
 
-def check_gadget_elligator(rep, factsR, pid):
-    return
+def gden(t):
+    """strip the gadget wrappers: ElementVar{inner: AffineVar} and the lazy wrapper"""
+    if not isinstance(t, Tm.T):
+        return t
+    memo = {}
+
+    def go(x):
+        if not isinstance(x, Tm.T):
+            return x
+        r = memo.get(x)
+        if r is not None:
+            return r
+        if x.op == "struct" and x.args[0].endswith("::ElementVar") and x.args[1] == ("inner",):
+            r = go(x.args[2])
+        elif x.op == "lazy_el":
+            r = go(x.args[0])
+        elif x.op == "update_field" and x.args[1] == "inner":
+            r = go(x.args[2])
+        elif x.op == "field" and x.args[1] == "inner":
+            r = go(x.args[0])
+        elif x.op == "lazy_element_of":
+            r = go(x.args[0])
+        else:
+            na = tuple(go(a) if isinstance(a, Tm.T) else a for a in x.args)
+            r = x if all(u is w for u, w in zip(na, x.args)) else Tm.rebuild(x.op, na)
+        memo[x] = r
+        return r
+    return go(t)
+
+
+def lazy_summaries(cfg):
+    """element::ElementVar is a lazy cell; for the operator forwards it is summarised as a wrapper around the inner element"""
+    L = "ark_curve::r1cs::lazy::LazyElementVar"
+
+    def new_from_element(ctx):
+        return mk("lazy_el", ctx.args[0])
+
+    def element(ctx):
+        x = ctx.args[0]
+        if x.op == "lazy_el":
+            return variant("Ok", x.args[0])
+        return variant("Ok", mk("lazy_element_of", x))
+    return {L + "::new_from_element": new_from_element, L + "::element": element}
+
+
+def check_eq_select(rep, cfg):
+    N = P.Norm(K.Q)
+    p = "<ark_curve::r1cs::inner::ElementVar as ark_r1cs_std::eq::EqGadget<fields::fq::u64::wrapper::Fq>>::is_eq"
+    ps = [x for x in cfg.prog.bodies if x.endswith("::is_eq") and "inner::ElementVar" in x]
+    for p in ps:
+        out = cfg.run(p)
+        S_, O_ = mk("param", "self"), mk("param", "other")
+        x1, y1 = field(field(S_, "inner"), "x"), field(field(S_, "inner"), "y")
+        x2, y2 = field(field(O_, "inner"), "x"), field(field(O_, "inner"), "y")
+        want = Tm.eq(mk("mul", x1, y2), mk("mul", x2, y1))
+        v = ok_payload(out.value)
+        ok = v is not None and N.cond(v) == N.cond(want)
+        rep.ob("TERM/R/%s" % norm_path(p), ok, "in-circuit equality must be the Decaf test X1*Y2 == X2*Y1; got %s" % Tm.show(out.value, maxdepth=5), where=cfg.where(p))
+    # enforce (not) equal forms go through is_eq
+    for path, b in sorted(cfg.prog.bodies.items()):
+        if not path.startswith("<ark_curve::r1cs::") and not path.startswith("ark_curve::r1cs::"):
+            continue
+        name = path.split("::")[-1]
+        if name in ("conditional_enforce_equal", "conditional_enforce_not_equal") and "ElementVar" in path:
+            loc = {}
+            for q_ in cfg.prog.bodies:
+                if q_.endswith("::is_eq") and "ElementVar" in q_:
+                    loc[q_] = (lambda ctx: variant("Ok", mk("decaf_eq", ctx.args[0], ctx.args[1])))
+            out = cfg.run(path, local=loc)
+            cee = [args for pc, kind, args, site in out.effects if kind == "cond_enforce_equal"]
+            S_, O_, E_ = mk("param", "self"), mk("param", "other"), mk("param", "should_enforce")
+            want_b = TRUE if name.endswith("enforce_equal") and "not" not in name else FALSE
+            ok = len(cee) == 1 and cee[0][0] is mk("decaf_eq", S_, O_) and cee[0][1] is want_b and cee[0][2] is E_
+            rep.ob("TERM/R/%s" % norm_path(path), ok, "%s must conditionally enforce decaf_eq(self, other) == %s under should_enforce; got %s" % (
+                name, Tm.show(want_b), [[Tm.show(a, maxdepth=3) for a in c] for c in cee]), where=cfg.where(path))
+    for p in [x for x in cfg.prog.bodies if x.endswith("::conditionally_select") and "inner::ElementVar" in x]:
+        out = cfg.run(p)
+        c_, t_, f_ = mk("param", "cond"), mk("param", "true_value"), mk("param", "false_value")
+        v = ok_payload(out.value)
+        inner = field(v, "inner") if v is not None else mk("bottom")
+        ok = inner.op == "struct" and field(inner, "x") is Tm.ite(c_, field(field(t_, "inner"), "x"), field(field(f_, "inner"), "x")) and \
+            field(inner, "y") is Tm.ite(c_, field(field(t_, "inner"), "y"), field(field(f_, "inner"), "y"))
+        rep.ob("TERM/R/%s" % norm_path(p), ok, "conditional select must pick both coordinates of the same operand: (cond ? t.x : f.x, cond ? t.y : f.y); got %s" % Tm.show(inner, maxdepth=5), where=cfg.where(p))
+
+
+def check_sign_gadget(rep, cfg):
+    base = "<ark_r1cs_std::fields::fp::FpVar<fields::fq::u64::wrapper::Fq> as ark_curve::r1cs::fqvar_ext::FqVarExtension>::"
+    S_ = mk("param", "self")
+    p = base + "is_nonnegative"
+    if p in cfg.prog.bodies:
+        out = cfg.run(p)
+        want = variant("Ok", Tm.eq(Tm.and_(Tm.index(mk("bits_le", S_), lit(0)), TRUE), FALSE))
+        v = out.value
+        lsb = mk("sign", S_)       # terms.index normalises bits_le(x)[0] to sign(x)
+        ok = v is variant("Ok", Tm.not_(lsb))
+        rep.ob("SIGN/R/is_nonnegative", ok, "in-circuit sign must be NOT(bit 0 of the canonical little-endian bit decomposition); got %s" % Tm.show(v, maxdepth=5), where=cfg.where(p))
+    p = base + "is_negative"
+    if p in cfg.prog.bodies:
+        out = cfg.run(p, local={base + "is_nonnegative": (lambda ctx: variant("Ok", mk("nonneg", ctx.args[0])))})
+        rep.ob("SIGN/R/is_negative", out.value is variant("Ok", Tm.not_(mk("nonneg", S_))), "is_negative must be NOT is_nonnegative; got %s" % Tm.show(out.value, maxdepth=4), where=cfg.where(p), nontrivial=False)
+    p = base + "abs"
+    if p in cfg.prog.bodies:
+        out = cfg.run(p, local={base + "is_nonnegative": (lambda ctx: variant("Ok", mk("nonneg", ctx.args[0])))})
+        rep.ob("SIGN/R/abs", out.value is variant("Ok", Tm.ite(mk("nonneg", S_), S_, mk("neg", S_))), "abs must be select(is_nonnegative, self, -self); got %s" % Tm.show(out.value, maxdepth=4), where=cfg.where(p))
+
+
+# =====================================================================================================
+# allocation modes, witness path, public input
+# =====================================================================================================
+
+def alloc_modes(rep, cfg, pid):
+    """inner::AllocVar<Element>::new_variable per mode"""
+    loc = isqrt_summary()
+    dec = INNER + "::decompress_from_field"
+    loc[dec] = lambda ctx: (ctx.effect("decode_gadget", ctx.args[0]), variant("Ok", mk("decoded_var", ctx.args[0])))[1]
+    pe = "ark_curve::encoding::<impl ark_curve::element::projective::Element>::vartime_compress_to_field"
+    loc[pe] = lambda ctx: mk("enc_field", ctx.args[0])
+    for q_ in cfg.prog.bodies:
+        if q_.endswith("::is_eq") and "inner::ElementVar" in q_:
+            loc[q_] = (lambda ctx: variant("Ok", mk("decaf_eq", ctx.args[0], ctx.args[1])))
+    ps = [x for x in cfg.prog.bodies if x.endswith("::new_variable") and "inner::ElementVar" in x and "AllocVar<ark_curve::element::projective::Element" in x]
+    if len(ps) != 1:
+        rep.fail_closed("inner AllocVar<Element>::new_variable not found (%s)" % ps)
+        return
+    p = ps[0]
+    res = {}
+    for mode in ("Constant", "Witness", "Input"):
+        from . import engine as E, summaries as S
+        summ = S.Summaries(local=loc)
+        I = E.Interp(cfg.prog, summ)
+        args = [mk("param", "cs"), mk("param", "f"), variant(mode)]
+        out = I.run(p, args=args)
+        res[mode] = out
+    val = payload(mk("apply", mk("param", "f")), "Ok", 0)
+    # Constant: no variables, no constraints
+    oc = res["Constant"]
+    allocs = [a for pc, kind, a, site in oc.effects if kind == "alloc"]
+    nonconst = [a for a in allocs if not (a[0].op == "variant" and a[0].args[0] == "Constant")]
+    enf = [a for pc, kind, a, site in oc.effects if kind in ("enforce_equal", "cond_enforce_equal", "decode_gadget")]
+    rep.ob("ALLOC/R/Constant", not nonconst and not enf, "Constant mode must allocate no variables and emit no constraints; non-constant allocations %d, constraints %d" % (len(nonconst), len(enf)), where=cfg.where(p))
+    # Witness: returns the *decoded* variable; the witnessed coordinates flow only into the equality constraint
+    ow = res["Witness"]
+    v = ok_payload_any(ow.value)
+    allocs = [a for pc, kind, a, site in ow.effects if kind == "alloc"]
+    decs = [a for pc, kind, a, site in ow.effects if kind == "decode_gadget"]
+    cee = [a for pc, kind, a, site in ow.effects if kind in ("cond_enforce_equal", "enforce_equal")]
+    okw = False
+    why = ""
+    if v is not None and v.op == "decoded_var" and is_alloc(v.args[0], "Witness"):
+        enc_w = v.args[0]
+        hint = enc_w.args[3]
+        good_hint = hint.op == "enc_field"
+        # P_var must appear only inside the equality constraint
+        pvars = [a for a in allocs if a[1].args[0] == "affine_point_unchecked"]
+        uses_ok = True
+        for t in Tm.subterms(v):
+            if is_alloc(t) and t.args[1].args[0] == "affine":
+                uses_ok = False
+        eq_ok = any(c[0].op == "decaf_eq" and (c[0].args[0] is v or c[0].args[1] is v) for c in cee)
+        okw = good_hint and uses_ok and len(decs) == 1
+        why = "returned variable = decompress(witness(encode(value))): %s; prover-supplied coordinates do not flow into the result: %s; decode gadget invoked once: %s; decaf-equality against the offered coordinates present: %s" % (
+            good_hint, uses_ok, len(decs) == 1, eq_ok)
+        if not eq_ok:
+            rep.info("Witness mode: no decaf-equality constraint ties the offered coordinates P_var to the decoded variable; P_var would be unconstrained junk (the output stays sound)")
+    else:
+        why = "returns %s" % Tm.show(ow.value, maxdepth=4)
+    rep.ob("WITNESS/R/new_variable", okw, "Witness mode must return the in-circuit decoding of the witnessed encoding (never the prover-supplied point): " + why, where=cfg.where(p),
+           sample={"obligation": "WITNESS/R/new_variable", "verdict": why})
+    # Input at the inner level is unreachable: its only caller dispatches Input first
+    oi = res["Input"]
+    pan = [s for pc, s in oi.panics if s.get("kind") == "unreachable"]
+    outer = [x for x in cfg.prog.bodies if x.endswith("::new_variable") and "element::ElementVar" in x and "AllocVar<ark_curve::element::projective::Element" in x]
+    callers = []
+    for q_, b in cfg.prog.bodies.items():
+        if "body" in b and q_ != p and mentions_call(b["body"], p):
+            callers.append(q_)
+    rep.ob("ALLOC/R/inner-Input-unreachable", len(pan) >= 1 and set(callers) <= set(outer) | {x for x in cfg.prog.bodies if "AllocVar<ark_curve::element::affine::AffinePoint" in x and "inner::ElementVar" in x},
+           "inner new_variable's `unreachable!()` for Input: callers %s must dispatch Input before delegating" % [norm_path(c) for c in callers], where=cfg.where(p), nontrivial=False)
+    return res
+
+
+def ok_payload_any(v):
+    """Ok payload of the (single) success leaf of a Result-valued term"""
+    for pc, leaf in C.expand_flows([((), v)]):
+        if leaf.op == "variant" and leaf.args[0] == "Ok":
+            return leaf.args[1]
+    return None
+
+
+def mentions_call(node, path):
+    if isinstance(node, dict):
+        c = node.get("callee")
+        if isinstance(c, dict) and ((c.get("inst") or {}).get("path") == path):
+            return True
+        r = node.get("r")
+        if isinstance(r, dict) and isinstance(r.get("callee"), dict) and ((r["callee"].get("inst") or {}).get("path") == path):
+            return True
+        return any(mentions_call(v, path) for v in node.values())
+    if isinstance(node, list):
+        return any(mentions_call(v, path) for v in node)
+    return False
+
+
+def public_input(rep, cfg):
+    """C15: an element allocated as public input is exactly one Fq instance variable = encode(value) = ToConstraintField"""
+    pe = "ark_curve::encoding::<impl ark_curve::element::projective::Element>::vartime_compress_to_field"
+    loc = {pe: (lambda ctx: mk("enc_field", ctx.args[0]))}
+    ps = [x for x in cfg.prog.bodies if x.endswith("::new_variable") and "element::ElementVar" in x and "AllocVar<ark_curve::element::projective::Element" in x]
+    if len(ps) != 1:
+        rep.fail_closed("element AllocVar<Element>::new_variable not found")
+        return
+    from . import engine as E, summaries as S
+    I = E.Interp(cfg.prog, S.Summaries(local=loc))
+    out = I.run(ps[0], args=[mk("param", "cs"), mk("param", "f"), variant("Input")])
+    allocs = [a for pc, kind, a, site in out.effects if kind == "alloc"]
+    enf = [a for pc, kind, a, site in out.effects if kind in ("enforce_equal", "cond_enforce_equal", "isqrt_gadget", "enforce_invertible")]
+    val = payload(mk("apply", mk("param", "f")), "Ok", 0)
+    ok = len(allocs) == 1 and allocs[0][0] is variant("Input") and allocs[0][1].args[0] == "fq" and allocs[0][2] is mk("enc_field", val) and not enf
+    rep.ob("INPUT/R/new_variable", ok,
+           "Input mode must allocate exactly one Fq instance variable whose value is vartime_compress_to_field(value) and emit no constraint before the lazy decode; allocations: %s; constraints: %d" % (
+               [[Tm.show(x, maxdepth=4) for x in a[:3]] for a in allocs], len(enf)), where=cfg.where(ps[0]),
+           sample={"obligation": "INPUT/R/new_variable", "allocations": len(allocs)})
+    pt = [x for x in cfg.prog.bodies if x.endswith("::to_field_elements") and "projective::Element" in x]
+    if len(pt) == 1:
+        o2 = cfg.run(pt[0], local=loc)
+        want = variant("Some", mk("array", mk("enc_field", mk("param", "self"))))
+        rep.ob("INPUT/R/ToConstraintField", o2.value is want, "ToConstraintField must be the single element [vartime_compress_to_field(self)] (the same value the Input allocation uses); got %s" % Tm.show(o2.value, maxdepth=5), where=cfg.where(pt[0]))
+    else:
+        rep.fail_closed("ToConstraintField<Fq> for Element not found")
+
+
+# =====================================================================================================
+# lazy typestate
+# =====================================================================================================
+
+def lazy_typestate(rep, cfg):
+    L = "ark_curve::r1cs::lazy::LazyElementVar"
+    dec = INNER + "::decompress_from_field"
+    enc = INNER + "::compress_to_field"
+    states = {
+        "Encoding": mk("variant", "Encoding", mk("sym", "ENC")),
+        "Element": mk("variant", "Element", mk("sym", "EL")),
+        "Both": mk("variant_struct", "EncodingAndElement", ("encoding", "element"), mk("sym", "ENC"), mk("sym", "EL")),
+    }
+    from . import engine as E, summaries as S
+    results = {}
+    for meth in ("element", "encoding"):
+        for sname, sval in states.items():
+            calls = []
+
+            def mkloc():
+                loc = {}
+                loc[dec] = lambda ctx: (calls.append(("decode", ctx.args[0])), variant("Ok", mk("DEC", ctx.args[0])))[1]
+                loc[enc] = lambda ctx: (calls.append(("encode", ctx.args[0])), variant("Ok", mk("ENCODE", ctx.args[0])))[1]
+                return loc
+            I = E.Interp(cfg.prog, S.Summaries(local=mkloc()), {"max_depth": 6})
+            selfv = mk("struct", L, ("inner",), sval)
+            try:
+                out = I.run(L + "::" + meth, args=[selfv])
+            except KeyError:
+                rep.fail_closed("LazyElementVar::%s not found" % meth)
+                return
+            results[(meth, sname)] = (out, list(calls))
+    # expectations
+    ENC, EL = mk("sym", "ENC"), mk("sym", "EL")
+    exp = {
+        ("element", "Encoding"): ([("decode", ENC)], mk("DEC", ENC)),
+        ("element", "Element"): ([], EL),
+        ("element", "Both"): ([], EL),
+        ("encoding", "Encoding"): ([], ENC),
+        ("encoding", "Element"): ([("encode", EL)], mk("ENCODE", EL)),
+        ("encoding", "Both"): ([], ENC),
+    }
+    for k2, (out, calls) in results.items():
+        want_calls, want_val = exp[k2]
+        v = ok_payload_any(out.value)
+        pan = [s for pc, s in out.panics if s.get("kind") in ("unreachable", "panic") and (not pc or pc[-1] is not FALSE)]
+        live_pan = [s for pc, s in out.panics if s.get("kind") in ("unreachable",) and all(c is not FALSE for c in pc)]
+        ok = calls == want_calls and v is want_val
+        rep.ob("LAZY/R/%s@%s" % k2, ok and not out.unmodelled,
+               "LazyElementVar::%s in state %s must emit %s and return %s; emitted %s, returned %s%s" % (
+                   k2[0], k2[1], [c[0] for c in want_calls] or "no constraints", Tm.show(want_val), [c[0] for c in calls], Tm.show(v, maxdepth=4) if v is not None else Tm.show(out.value, maxdepth=4),
+                   ("; unmodelled: %s" % out.unmodelled[:2]) if out.unmodelled else ""),
+               where=cfg.where(L + "::" + k2[0]), sample={"obligation": "LAZY/R/%s@%s" % k2, "constraint_emitting_calls": [c[0] for c in calls]})
+        # the cell must be left in the Both state (with the same terms that are returned) whenever constraints were emitted
+        if want_calls:
+            post = out.outs   # &self: RefCell interior mutability is modelled through the borrow_mut write
+            st = None
+            for pc, kind, args, site in out.effects:
+                if kind == "lazy_store":
+                    st = args[0]
+            okst = st is not None and st.op == "variant_struct" and st.args[0] == "EncodingAndElement"
+            if okst:
+                d = dict(zip(st.args[1], st.args[2:]))
+                if k2[0] == "element":
+                    okst = d.get("element") is want_val and d.get("encoding") is ENC
+                else:
+                    okst = d.get("encoding") is want_val and d.get("element") is EL
+            rep.ob("LAZY/R/%s@%s:memo" % k2, okst, "after emitting constraints the cell must hold EncodingAndElement{the original half, the freshly computed half that is returned}; stored: %s" % (
+                Tm.show(st, maxdepth=4) if st is not None else "nothing"), where=cfg.where(L + "::" + k2[0]))
+    # no RefCell borrow is live across the nested call: the borrow in `matches!(&*self.inner.borrow(), ..)` is a temporary of the condition
+    return results
+
+
+# =====================================================================================================
+# C15: taint - constraint structure must not depend on witness values
+# =====================================================================================================
+
+def taint_sources(t):
+    """value-level taint sources occurring in t outside value shields (allocation closures)"""
+    res = []
+    stack = [t]
+    seen = set()
+    while stack:
+        x = stack.pop()
+        if isinstance(x, tuple):
+            stack.extend(x)
+            continue
+        if not isinstance(x, Tm.T) or x in seen:
+            continue
+        seen.add(x)
+        if x.op == "allocated":
+            continue       # the value lives inside the allocation closure
+        if x.op in ("value_of",) or (x.op == "apply" and x.args[0].op == "param"):
+            res.append(x)
+            continue
+        stack.extend(x.args)
+    return res
+
+
+def availability_only(c):
+    """condition that only asks whether a value is present (Err/Ok, Some/None of a tainted Result/Option)"""
+    x = c.args[0] if c.op == "not" else c
+    return x.op == "is_variant" and x.args[1] in ("Ok", "Err", "Some", "None")
+
+
+def taint_rule(rep, cfg):
+    n_fn = 0
+    n_eff = 0
+    avail = []
+    for path, b in sorted(cfg.prog.bodies.items()):
+        if "r1cs" not in path or "body" not in b or b["dk"] not in ("Fn", "AssocFn") or "::tests::" in path or "CountConstraints" in path:
+            continue
+        n_fn += 1
+        out = cfg.run(path)
+        bad = []
+        for pc, kind, args, site in out.effects:
+            if kind not in ("alloc", "enforce_equal", "cond_enforce_equal", "enforce_invertible", "loop"):
+                continue
+            n_eff += 1
+            for c in pc:
+                src = taint_sources(c)
+                if not src:
+                    continue
+                if availability_only(c):
+                    avail.append("%s: %s" % (norm_path(path), Tm.show(c, maxdepth=3)))
+                    continue
+                bad.append("%s at %s is control-dependent on a witness value: %s" % (kind, site.get("sp"), Tm.show(c, maxdepth=5)))
+            if kind == "alloc":
+                structural = (args[0], args[1])     # mode and kind; args[2] is the closure's value
+            elif kind == "loop":
+                structural = (args[0].args[0],) if args and isinstance(args[0], Tm.T) and args[0].op == "fold" else ()
+            else:
+                structural = args
+            for a in structural:
+                if isinstance(a, Tm.T) and taint_sources(a):
+                    bad.append("%s at %s receives a witness value outside an allocation closure: %s" % (kind, site.get("sp"), Tm.show(a, maxdepth=5)))
+        key = "TAINT/R/%s" % norm_path(path)
+        rep.ob(key, not bad, "constraint generation must not depend on values: %s" % ("%d effects, all unconditional w.r.t. values" % len(out.effects) if not bad else "; ".join(bad[:3])),
+               where=cfg.where(path), nontrivial=bool(out.effects))
+    rep.analysed["gadget_functions"] = n_fn
+    rep.analysed["gadget_effects_examined"] = n_eff
+    rep.analysed["availability_dependences"] = sorted(set(avail))[:20]
+    rep.floor("gadget_functions", n_fn, 80)
